@@ -45,6 +45,7 @@ CONSTANTS Unary, Subs, Notifs, Retry,   \* sets of call tokens by kind
           MaxFaults,                     \* connection faults allowed
           AllowStop,                     \* the closer may be invoked
           AllowCancel,                   \* callers may cancel their contexts
+          AllowHalf,                     \* a fault may also leave the link half-open (server-to-client direction dead only)
           Reconnect,                     \* the client has a connection factory
           MaxAttempts,                   \* attempts of a retry-tagged call
           FixExitOrder,                  \* TRUE: exit stops and waits for the frame executor before closing channels (candidate repair)
@@ -73,6 +74,9 @@ netVars    == <<c2s, s2c, link, cut, faults>>
 srvVars    == <<srvRun, srvCtx, chanCtr, srvCh, execs, wireReq, idOnWire>>
 vars == <<callerVars, connVars, chanVars, netVars, srvVars>>
 
+\* a link is "up", "half" (half-open: what the client writes still arrives, nothing comes back - noticed only by a read deadline),
+\* "fin" (ended in both directions) or "dead" (ended inside a frame)
+Writable(g) == link[g] \in {"up", "half"}
 ConnErr == <<"connerr">>
 ExitErr == <<"exiterr">>
 Ok(k)   == <<"ok", k>>
@@ -125,7 +129,7 @@ CancelGiveUp(k) == /\ cancelSt[k] = "enq" /\ exited /\ cancelSt' = [cancelSt EXC
 \* cancel request already went out through the main loop (the handler then sees two)
 SubCtxCancel(k) == /\ watch[k] = "armed" /\ cancelled[k]
                    /\ watch' = [watch EXCEPT ![k] = "fired"]
-                   /\ c2s' = IF link[gen] = "up" THEN [c2s EXCEPT ![gen] = Append(@, <<"cancel", k>>)] ELSE c2s
+                   /\ c2s' = IF Writable(gen) THEN [c2s EXCEPT ![gen] = Append(@, <<"cancel", k>>)] ELSE c2s
                    /\ UNCHANGED <<cst, cres, ready, attempts, cancelled, cancelSt, connVars, chanVars, s2c, link, cut, faults, srvVars>>
 
 (* ================================ main loop ================================ *)
@@ -148,14 +152,14 @@ MainReqCheck(k) == /\ mainpc = <<"check", k>>
                                   chanVars, netVars, srvVars>>
 \* sendRequest (its own writeLk section): the frame reaches the wire if the current connection is up
 MainWrite(k) == /\ mainpc = <<"write", k>>
-                /\ c2s' = IF link[gen] = "up" THEN [c2s EXCEPT ![gen] = Append(@, <<IF k \in Notifs THEN "notif" ELSE "req", k>>)] ELSE c2s
-                /\ wireReq' = IF link[gen] = "up" THEN [wireReq EXCEPT ![k] = @ + 1] ELSE wireReq
-                /\ idOnWire' = IF link[gen] = "up" /\ k \notin Notifs THEN [idOnWire EXCEPT ![k] = TRUE] ELSE idOnWire
+                /\ c2s' = IF Writable(gen) THEN [c2s EXCEPT ![gen] = Append(@, <<IF k \in Notifs THEN "notif" ELSE "req", k>>)] ELSE c2s
+                /\ wireReq' = IF Writable(gen) THEN [wireReq EXCEPT ![k] = @ + 1] ELSE wireReq
+                /\ idOnWire' = IF Writable(gen) /\ k \notin Notifs THEN [idOnWire EXCEPT ![k] = TRUE] ELSE idOnWire
                 /\ mainpc' = IF k \in Notifs THEN <<"notifdone", k>> ELSE <<"select">>
                 /\ UNCHANGED <<callerVars, inflight, gen, incErr, rd, rdGen, rdMsg, execQ, ex, rc, readErrCh, stopped, exited, chanVars, s2c, link, cut, faults,
                                srvRun, srvCtx, chanCtr, srvCh, execs>>
 MainWriteCancel(k) == /\ mainpc = <<"writecancel", k>>
-                      /\ c2s' = IF link[gen] = "up" THEN [c2s EXCEPT ![gen] = Append(@, <<"cancel", k>>)] ELSE c2s
+                      /\ c2s' = IF Writable(gen) THEN [c2s EXCEPT ![gen] = Append(@, <<"cancel", k>>)] ELSE c2s
                       /\ mainpc' = <<"select">>
                       /\ UNCHANGED <<callerVars, inflight, gen, incErr, rd, rdGen, rdMsg, execQ, ex, rc, readErrCh, stopped, exited, chanVars, s2c, link, cut, faults, srvVars>>
 \* notification: req.ready <- resp (no error unless the write failed)
@@ -345,6 +349,10 @@ SrvConnEnd(g) == /\ link[g] # "up" /\ (srvRun[g] # {} \/ srvCh[g] # {})
 FaultFin(g) == /\ faults < MaxFaults /\ link[g] = "up" /\ g <= gen
                /\ link' = [link EXCEPT ![g] = "fin"] /\ faults' = faults + 1
                /\ UNCHANGED <<callerVars, connVars, chanVars, c2s, s2c, cut, srvVars>>
+\* the link goes half-open: server-to-client traffic is swallowed from now on, client-to-server traffic still arrives
+FaultHalf(g) == /\ AllowHalf /\ faults < MaxFaults /\ link[g] = "up" /\ g <= gen
+                /\ link' = [link EXCEPT ![g] = "half"] /\ faults' = faults + 1
+                /\ UNCHANGED <<callerVars, connVars, chanVars, c2s, s2c, cut, srvVars>>
 \* the next server-to-client frame is cut inside its payload, then the connection dies
 FaultCut(g) == /\ faults < MaxFaults /\ link[g] = "up" /\ ~cut[g] /\ g <= gen
                /\ cut' = [cut EXCEPT ![g] = TRUE] /\ faults' = faults + 1
@@ -361,7 +369,7 @@ Next ==
   \/ RdNext \/ RdErr \/ RdGiveUp \/ RdFrameOk \/ RdFrameFail
   \/ ExPop \/ ExLookup \/ ExRegChan \/ ExDeliver \/ ExDelete
   \/ \E k \in Subs : BufDeliver(k) \/ BufClose(k) \/ BufCtxClose(k)
-  \/ \E g \in Gens : SrvRecv(g) \/ SrvChanStep(g) \/ SrvConnEnd(g) \/ FaultFin(g) \/ FaultCut(g) \/ \E k \in Calls : SrvRespond(g, k)
+  \/ \E g \in Gens : SrvRecv(g) \/ SrvChanStep(g) \/ SrvConnEnd(g) \/ FaultFin(g) \/ FaultHalf(g) \/ FaultCut(g) \/ \E k \in Calls : SrvRespond(g, k)
   \/ Stop
 
 Spec == Init /\ [][Next]_vars
